@@ -265,7 +265,26 @@ def r3(ctx):
     w = ctx.body(M + '_whitespace_correction_tp_fp_fn')
     GT = Call('_whitespace_ops_to_set', Call('whitespace::operations', ('arg', 1, ANY), ('arg', 3, ANY), ANY), ('arg', 4, ANY))
     PR = Call('_whitespace_ops_to_set', Call('whitespace::operations', ('arg', 1, ANY), ('arg', 2, ANY), ANY), ('arg', 4, ANY))
-    oks = [v for v, blk in ret_values(w) if v[0] == 'agg' and v[2].endswith('Result::Ok')]
+    oks_all = [(v, blk) for v, blk in ret_values(w) if v[0] == 'agg' and v[2].endswith('Result::Ok')]
+    # a return of constants is the general result specialised to "both operation sets are empty" only when it is reached under exactly that
+    # condition (after the mode filter): `(true, 0, 0, 0)` under any other test (e.g. "all raw operations are Keep") and a constant flag on
+    # the general path change which sequences count as "nothing to evaluate" for the sequence average
+    from rules.common import emptiness_at
+    oks = []
+    for v, blk in oks_all:
+        tp_ = v[3][0][3] if v[3][0][0] == 'agg' and len(v[3][0][3]) == 5 else None
+        if tp_ is not None and core(tp_[0])[0] == 'const':
+            flag = bool(core(tp_[0])[2])
+            ge = emptiness_at(w, blk, lambda c: match(c, GT))
+            pe = emptiness_at(w, blk, lambda c: match(c, PR))
+            okc = (flag and ge is True and pe is True and all(core(tp_[i])[0] == 'const' and core(tp_[i])[2] == 0 for i in (1, 2, 3))) or \
+                (not flag and (ge is False or pe is False))
+            ctx.require(okc, w, 'ws-empty-flag-const', 'a constant "nothing to evaluate" flag is returned under the matching emptiness of both operation sets',
+                        'the "nothing to evaluate" flag is the constant %s at line %d, not `gt_opset.is_empty() && pred_opset.is_empty()` (known there: gt empty = %s, pred empty = %s): '
+                        'in mode Insertions a sequence with deletions only has empty sets, is no longer flagged, and the sequence average scores it 0 instead of 1'
+                        % (flag, w.blocks[blk].term.span['line'], ge, pe), w.blocks[blk].term.span)
+            continue
+        oks.append(v)
     if len(oks) != 1 or oks[0][3][0][0] != 'agg' or len(oks[0][3][0][3]) != 5:
         raise AnchorMissing('Ok((empty, tp, fp, fn, info)) of _whitespace_correction_tp_fp_fn')
     tup = oks[0][3][0][3]
@@ -578,3 +597,43 @@ def r_segflag(ctx):
 def r7(ctx):
     from rules import c12
     c12.r1(ctx)
+
+
+@rule('C13', 'R-C13-8', 'T15 TYPE (character positions are not byte offsets)',
+      '_group_words and the tp/fp/fn helpers never index the raw text or its bytes (`input.as_bytes()[i]`, `&s[a..b]`, `s.get(..)`): the '
+      'positions they work with come from edit::operations / word_boundaries and count Characters. A byte lookup with a character index '
+      'reads the wrong place once a multi-byte character precedes it, the split / merge is missed and the closing assertion panics')
+def r8(ctx):
+    n = 0
+    for fn in (M + '_group_words', M + '_spelling_correction_tp_fp_fn', M + '_whitespace_correction_tp_fp_fn'):
+        b0 = ctx.body(fn)
+        from rules.common import closures_in
+        for b in [b0] + closures_in(ctx, b0):
+            n += 1
+            strs = {i for i in range(1, b.arg_count + 1) if b.local_ty(i) in ('&str', '&std::string::String')}
+            for t in b.terms('call'):
+                nm = t.callee_res() or ''
+                if not t.args:
+                    continue
+                rc = core(sym(b, t.args[0]))
+                raw = (re.search(r'str.*Index.*::index$|str::get$|str::get_unchecked$|str::split_at$|SliceIndex<str>.*::index$|str::traits::(.*::)?index$', nm) and True) or \
+                    (re.search(r'ops::Index.*::index$|slice::.*::index$|slice::get$|<\[u8\]>::get$', nm) and has(sym(b, t.args[0]), Call('str::as_bytes', ANY)))
+                if raw:
+                    ctx.fail(b, 'raw-index|' + fn.rsplit('::', 1)[-1], '%s looks into the raw text `%s` with `%s` at line %d: the positions in this function are Character '
+                             'indices, not byte offsets' % (fn, show_in(b, sym(b, t.args[0]))[:50], nm.rsplit('::', 1)[-1], t.span['line']), t.span)
+            # `bytes[i]` on a slice is a place projection, not a call: look for index nodes over the bytes of a text
+            z = symbolizer(b)
+            seen_lines = set()
+            for st in b.stmts():
+                if st.kind != 'assign' or st.span['exp']:
+                    continue
+                try:
+                    v = simplify(z.rvalue(st.rv, 0, ()))
+                except Exception:
+                    continue
+                for x in walk(v):
+                    if isinstance(x, tuple) and x and x[0] == 'index' and has(init_value(b, x[1]), Call('str::as_bytes', ANY)) and st.span['line'] not in seen_lines:
+                        seen_lines.add(st.span['line'])
+                        ctx.fail(b, 'raw-index|' + fn.rsplit('::', 1)[-1], '%s indexes the bytes of a text (`%s`, line %d): the positions in this function are Character indices, '
+                                 'not byte offsets' % (fn, show_in(b, x)[:60], st.span['line']), st.span)
+    ctx.ok(None, 'no raw text indexing in the %d metric helper bodies' % n)
